@@ -116,8 +116,7 @@ Print Assumptions C10_sorted_equivariant_partial.
    With pairwise distinct priority keys the algorithm returns the same schedule entry-for-entry permuted
    (perm_vec p out: entry k of the new vector is entry p[k] of the old one), i.e. the same map station -> pilot,
    and raises the same error if it raises.  Holds for all five sort orders and for continuous as well as
-   finite-rate stations.  (Preprocessing and round robin are not covered: apply_minimum_charging_rate serves equal
-   remaining times in presentation order.) *)
+   finite-rate stations.  Round robin and the whole schedule() follow below. *)
 Section SortedEquivariance.
   Import ACN.Model.Preproc ACN.Model.Sorted ACN.Proofs.SortedPerm.
 
@@ -146,6 +145,63 @@ Section SortedEquivariance.
         /\ forall i, (i < n_stations inf)%nat -> nth (pos p i) out' 0 = nth i out 0.
   Proof. exact greedy_equivariant_map. Qed.
 
+  (* round robin: the same statement *)
+  Theorem C10_round_robin_equivariant :
+    forall (inf inf' : infra) (p : list nat) period now inc k (ss ss' : list Preproc.session),
+      is_perm p (n_stations inf) -> infra_shape inf -> infra_perm p inf inf' ->
+      List.length (i_allow inf) = n_stations inf ->
+      (forall s, In s ss -> (s_station s < n_stations inf)%nat) ->
+      Permutation ss' (map (relabel p) ss) ->
+      (forall a b, In a ss -> In b ss ->
+         sort_key inf period now k a == sort_key inf period now k b -> a = b) ->
+      round_robin (feasQ inf') inf' period now inc k ss'
+      = res_map (perm_vec 0 p) (round_robin (feasQ inf) inf period now inc k ss).
+  Proof. exact round_robin_equivariant_feasQ. Qed.
+
+  (* the whole schedule() = run_preprocessing (finished-session removal, pilot limit, SimpleRampdown estimator,
+     uninterrupted-charging minimum rates) + greedy or round robin + format_array_schedule, for sessions with distinct
+     ids, pairwise distinct priority keys and -- when minimum rates are applied -- pairwise distinct remaining times
+     (apply_minimum_charging_rate serves the sessions in order of remaining time; see C10_remaining_time_ties_matter) *)
+  Theorem C10_schedule_equivariant :
+    forall (inf inf' : infra) (p : list nat) (cfg : Sorted.config) (ss ss' : list Preproc.session),
+      is_perm p (n_stations inf) -> infra_shape inf -> infra_perm p inf inf' ->
+      List.length (i_allow inf) = n_stations inf ->
+      (forall s, In s ss -> (s_station s < n_stations inf)%nat) ->
+      Permutation ss' (map (relabel p) ss) ->
+      NoDup (map s_id ss) ->
+      (forall a b, In a ss -> In b ss ->
+         sort_key inf (c_period cfg) (c_now cfg) (c_sort cfg) a == sort_key inf (c_period cfg) (c_now cfg) (c_sort cfg) b ->
+         s_id a = s_id b) ->
+      (c_unint cfg = true -> forall a b, In a ss -> In b ss -> remaining_time a = remaining_time b -> a = b) ->
+      so_result (schedule_with (feasQ inf') inf' cfg ss')
+      = res_map (perm_vec 0 p) (so_result (schedule_with (feasQ inf) inf cfg ss)).
+  Proof. exact schedule_equivariant_feasQ. Qed.
+
+  (* preprocessing alone, one infrastructure: any presentation order gives the same preprocessed sessions (as a multiset;
+     the same list when minimum rates are applied) and the same estimator store (as a map) *)
+  Theorem C10_preprocessing_order_independent :
+    forall (feasible : list Q -> bool) (inf : infra) period est unint (ss1 ss2 : list Preproc.session),
+      Permutation ss1 ss2 -> NoDup (map s_id ss1) ->
+      (unint = true -> forall a b, In a ss1 -> In b ss1 -> remaining_time a = remaining_time b -> a = b) ->
+      Permutation (fst (run_preprocessing feasible inf period est unint ss1))
+                  (fst (run_preprocessing feasible inf period est unint ss2))
+      /\ forall k, zassoc k (snd (run_preprocessing feasible inf period est unint ss1))
+                   = zassoc k (snd (run_preprocessing feasible inf period est unint ss2)).
+  Proof. exact run_preprocessing_perm. Qed.
+
+  (* ... and the remaining-time hypothesis cannot be dropped: with EQUAL remaining times (a tie the scheduler's decision
+     hinges on) the session listed first keeps its 8 A minimum pilot under the 10 A limit and the other one is dropped,
+     although the priority keys (arrival times) are distinct: (8, 0) versus (0, 8).  Reproduced on the real
+     SortedSchedulingAlgo(first_come_first_served, uninterrupted_charging=True). *)
+  Theorem C10_remaining_time_ties_matter :
+    let a := tie_session 0 1 0 in let b := tie_session 1 2 1 in
+    Permutation [a; b] [b; a] /\ NoDup (map s_id [a; b])
+    /\ ~ sort_key tie_inf 5 5%Z FCFS a == sort_key tie_inf 5 5%Z FCFS b
+    /\ remaining_time a = remaining_time b
+    /\ so_result (schedule tie_inf tie_cfg [a; b]) = Ok [8; 0]
+    /\ so_result (schedule tie_inf tie_cfg [b; a]) = Ok [0; 8].
+  Proof. exact remaining_time_tie_witness. Qed.
+
   (* what the permuted objects are *)
   Theorem C10_perm_vec_spec : forall (p : list nat) (v : list Q) i,
     In i p -> nth (pos p i) (perm_vec 0 p v) 0 = nth i v 0.
@@ -166,6 +222,10 @@ Section SortedEquivariance.
 End SortedEquivariance.
 Print Assumptions C10_sorted_equivariant.
 Print Assumptions C10_sorted_equivariant_map.
+Print Assumptions C10_round_robin_equivariant.
+Print Assumptions C10_schedule_equivariant.
+Print Assumptions C10_preprocessing_order_independent.
+Print Assumptions C10_remaining_time_ties_matter.
 Print Assumptions C10_perm_vec_spec.
 
 (* the two scheduler families of the model are equivariant *)
